@@ -1,4 +1,5 @@
 import copy
+import os
 import warnings
 import patsy
 import numpy as np
@@ -1641,6 +1642,9 @@ def calculate_joint_estimate(point_est, var_est, method):
     return single_point, single_point_var
 
 
+_VERIF_PROBE_ = []  # filled only when ZEPID_VERIF=1
+
+
 def targeting_step(y, a, py_a, py_n, pa1, pa0, splits):
     f = sm.families.family.Binomial()
     h1w = a / pa1
@@ -1669,6 +1673,12 @@ def targeting_step(y, a, py_a, py_n, pa1, pa0, splits):
         ystar0 = np.append(ystar0, logistic.cdf(np.log(probability_to_odds(py_ns)) - epsilon[1] / pa0s))
         ystara = np.append(ystara, log.predict(np.column_stack((h1ws, h0ws)),
                                                offset=np.log(probability_to_odds(py_os))))
+        if os.environ.get('ZEPID_VERIF') == '1':  # verification probe (add-only, off by default)
+            _VERIF_PROBE_.append({'split': s, 'y': np.array(ys, dtype=float), 'h1w': np.array(h1ws, dtype=float),
+                                  'h0w': np.array(h0ws, dtype=float), 'epsilon': np.array(epsilon, dtype=float),
+                                  'Qstar': np.array(log.predict(np.column_stack((h1ws, h0ws)),
+                                                                offset=np.log(probability_to_odds(py_os))),
+                                                    dtype=float)})
     return ystar1, ystar0, ystara, h1w, h0w, haw
 
 
